@@ -129,6 +129,28 @@ Theorem C03_compact_spec : forall mx b,
   cs_spec None b = consumed_view b (dec c_compact_raw b).
 Proof. exact (fun mx b => conj (cs_spec_bounded mx b) (cs_spec_raw b)). Qed.
 
+(** [read_t::<T>] and every counted-vector reader carry the MAX_COMPACT_SIZE bound; the
+    arithmetic model used for readers longer than the bound is the vector codec on the whole
+    stream [b ++ 0^fill], for every [fill] *)
+Theorem C03_read_t_bounded : forall w b n r,
+  dec (c_read_t w) b = Some (n, r) ->
+  b = enc_compact n ++ r /\ n <= MX /\ n < 2 ^ target_bits w.
+Proof.
+  exact (fun w b n r D =>
+    let C := canon _ (c_refine_ok (c_compact MX) (fun n => n <? 2 ^ target_bits w) (c_compact_ok MX)) _ _ _ D in
+    conj (proj1 C) (conj (c_compact_bound MX (enc_compact n ++ r) n r
+                            (rt _ (c_compact_ok MX) n r (proj1 (andb_prop _ _ (proj2 C)))))
+                         (proj1 (N.ltb_lt _ _) (c_refine_wf _ _ _ (proj2 C))))).
+Qed.
+Theorem C03_vecfill_model_is_c_vec : forall (b : bytes) fill, is_bytes b = true ->
+  match vecfill_model b fill with
+  | Ok (n, c) => exists l r, dec (c_vec MX c_u8) (b ++ repeat 0 (N.to_nat fill)) = Some (l, r) /\
+                             nlen l = n /\ c + nlen r = nlen b + fill
+  | Err _ => dec (c_vec MX c_u8) (b ++ repeat 0 (N.to_nat fill)) = None
+  | Panic => False
+  end.
+Proof. exact vecfill_model_is_c_vec. Qed.
+
 (** ... and the accepted prefix is the unique encoding of a well-formed model transaction
     (canonical, bounded length prefixes) whose amounts are all in range. *)
 Theorem C03_tx_bridge_model : forall H src ctx b bad n rw txid br s g alts,
